@@ -14,8 +14,10 @@ def run(ctx):
     common.go_build(['trace', 'corr04', 'corrkeccak'])
     common.lake_build(['Smtb.Properties.C04', 'driver'])
     common.audit(ctx, 'Smtb/Properties/C04.lean', THEOREMS)
+    common.lake_build(['Smtb.Properties.TraceSound2'])
+    common.audit(ctx, 'Smtb/Properties/TraceSound2.lean', ['Smtb.Properties.TraceSound2.keccakGadget_trace_iff', 'Smtb.Properties.TraceSound2.newKeccak256_trace_iff'])
     ctx.assumptions += [
-        "gate table for Xor / And / Sub (no hints in this gadget); parametricity of the polymorphic gadget program",
+        "gate table for Xor / And / Sub (no hints in this gadget); the link between the expanded trace (the text compared with the Go recorder) and the Sat semantics is PROVED (keccakGadget_trace_iff): no parametricity assumption",
         "the FIPS-202 reference in Smtb/Model/Keccak.lean is the trusted statement of 'the standard'; it is validated against golang.org/x/crypto/sha3 on every length 0..N bytes and against kernel-evaluated known answers, not proved equal to an external artefact",
         "InputSize = len(InputData) (as at every call site); byte-aligned messages",
     ]
